@@ -166,6 +166,51 @@ def run(ctx):
         ctx.sample({"case": cases[5], "data_word": f"0x{meta[5][0]:03x}", "error": f"0x{meta[5][1]:06x}", "impl": impl_lines[5] if len(impl_lines) > 5 else None})
         ctx.sample({"case": cases[-1], "impl": impl_lines[-1] if impl_lines else None})
 
+        # ---------------------------------------------------------------- oracle (c): exhaustive, on the C++ alone
+        rc, out = ctx.run_exe(exe, ["oracle"], timeout=1800)
+        ol = out.strip().split("\n")
+        ctx.coverage["exhaustive_oracle"] = ol
+        what = {
+            "systematic": ("golay-encode-not-systematic", "encode24(d) >> 12 != d"),
+            "evenparity": ("golay-codeword-odd-parity", "a codeword has odd parity"),
+            "linear": ("golay-encode-nonlinear", "encode24(a ^ b) != encode24(a) ^ encode24(b)"),
+            "minweight8": ("golay-min-weight", "a non-zero codeword has weight < 8"),
+            "correctable-rejected": ("golay-correctable-rejected", "an error of weight <= 3 on a codeword is rejected by Golay24::decode"),
+            "wrong-data": ("golay-wrong-data", "Golay24::decode reports success with other data after an error of weight <= 3"),
+            "fourbit-accepted": ("golay-4bit-accepted", "a 4-bit error on a codeword is accepted by Golay24::decode"),
+            "unsound-accept": ("golay-unsound-accept", "Golay24::decode reports success on a word farther than 3 from the codeword of the returned data"),
+            "lookup-misses-row": ("golay-lookup-misses-row", "the table search of decode() ends at LUT.end() or on a row with another syndrome for a 24-bit input"),
+        }
+        byw = [l for l in ol if l.startswith("rejected-correctable-by-weight=")]
+        seen = set()
+        for l in ol:
+            m = re.fullmatch(r"([a-z0-9-]+)=(\d+)/(\d+) first=(\S+)", l)
+            if not m:
+                continue
+            seen.add(m.group(1))
+            ctx.evaluations += int(m.group(3))
+            if int(m.group(2)) != 0 and m.group(1) in what:
+                key, text = what[m.group(1)]
+                f = dict(x.split("=") for x in m.group(4).split(":") if "=" in x)
+                replay = {"failing": int(m.group(2)), "of": int(m.group(3)), "first": m.group(4)}
+                if m.group(1) == "correctable-rejected" and byw:
+                    replay["rejected_by_error_weight_over_all_4096_codewords"] = byw[0].split("=", 1)[1]
+                if "d" in f and "e" in f and enc_cpp.get(int(f["d"], 16)) is not None:
+                    d, e = int(f["d"], 16), int(f["e"], 16)
+                    replay.update({"data_word": f"0x{d:03x}", "codeword": f"0x{enc_cpp[d]:06x}", "error_pattern": f"0x{e:06x}",
+                                   "error_weight": bin(e).count("1"), "received": f"{enc_cpp[d] ^ e:06x}"})
+                    rc2, o2 = ctx.run_exe(exe, input_text=f"dec {enc_cpp[d] ^ e:06x}\n")
+                    replay["actual"] = o2.strip()
+                elif "r" in f:
+                    replay["received"] = f["r"]
+                ctx.violation(key, text, replay)
+        if rc != 0 or set(what) - seen:
+            ctx.tie_broken("c04-oracle-run", f"exhaustive oracle exited {rc} / incomplete output: {out[-300:]}")
+        acc = [l for l in ol if l.startswith("accepted=")]
+        ctx.sample({"exhaustive_oracle": ol[4:9]})
+        if acc and acc[0] != f"accepted={4096 * 2325}" and not ctx.violations:
+            ctx.violation("golay-accepted-count", "number of accepted 24-bit words is not 4096 * 2325", {"actual": acc[0], "expected": 4096 * 2325})
+
         # ---------------------------------------------------------------- oracle (a): the statements on the cases of this run
         for i, (c, mt) in enumerate(zip(cases, meta)):
             if mt is None or i >= len(impl_lines):
@@ -206,48 +251,9 @@ def run(ctx):
                     break
             ctx.coverage["spec_decoder_sample"] = len(pc)
 
-        # ---------------------------------------------------------------- oracle (c): exhaustive, on the C++ alone
-        rc, out = ctx.run_exe(exe, ["oracle"], timeout=1800)
-        ol = out.strip().split("\n")
-        ctx.coverage["exhaustive_oracle"] = ol
-        what = {
-            "systematic": ("golay-encode-not-systematic", "encode24(d) >> 12 != d"),
-            "evenparity": ("golay-codeword-odd-parity", "a codeword has odd parity"),
-            "linear": ("golay-encode-nonlinear", "encode24(a ^ b) != encode24(a) ^ encode24(b)"),
-            "minweight8": ("golay-min-weight", "a non-zero codeword has weight < 8"),
-            "correctable-rejected": ("golay-correctable-rejected", "an error of weight <= 3 on a codeword is rejected by Golay24::decode"),
-            "wrong-data": ("golay-wrong-data", "Golay24::decode reports success with other data after an error of weight <= 3"),
-            "fourbit-accepted": ("golay-4bit-accepted", "a 4-bit error on a codeword is accepted by Golay24::decode"),
-            "unsound-accept": ("golay-unsound-accept", "Golay24::decode reports success on a word farther than 3 from the codeword of the returned data"),
-        }
-        seen = set()
-        for l in ol:
-            m = re.fullmatch(r"([a-z0-9-]+)=(\d+)/(\d+) first=(\S+)", l)
-            if not m:
-                continue
-            seen.add(m.group(1))
-            ctx.evaluations += int(m.group(3))
-            if int(m.group(2)) != 0 and m.group(1) in what:
-                key, text = what[m.group(1)]
-                f = dict(x.split("=") for x in m.group(4).split(":") if "=" in x)
-                replay = {"failing": int(m.group(2)), "of": int(m.group(3)), "first": m.group(4)}
-                if "d" in f and "e" in f and enc_cpp.get(int(f["d"], 16)) is not None:
-                    d, e = int(f["d"], 16), int(f["e"], 16)
-                    replay.update({"data_word": f"0x{d:03x}", "codeword": f"0x{enc_cpp[d]:06x}", "error_pattern": f"0x{e:06x}",
-                                   "error_weight": bin(e).count("1"), "received": f"{enc_cpp[d] ^ e:06x}"})
-                    rc2, o2 = ctx.run_exe(exe, input_text=f"dec {enc_cpp[d] ^ e:06x}\n")
-                    replay["actual"] = o2.strip()
-                elif "r" in f:
-                    replay["received"] = f["r"]
-                ctx.violation(key, text, replay)
-        if rc != 0 or set(what) - seen:
-            ctx.tie_broken("c04-oracle-run", f"exhaustive oracle exited {rc} / incomplete output: {out[-300:]}")
-        acc = [l for l in ol if l.startswith("accepted=")]
-        ctx.sample({"exhaustive_oracle": ol[4:9]})
-        if acc and acc[0] != f"accepted={4096 * 2325}" and not ctx.violations:
-            ctx.violation("golay-accepted-count", "number of accepted 24-bit words is not 4096 * 2325", {"actual": acc[0], "expected": 4096 * 2325})
-
-        # ---------------------------------------------------------------- oracle (d): it->a stays inside the table (all 2^24 inputs, ASan+UBSan)
+        # ---------------------------------------------------------------- oracle (d): no undefined behaviour in decode() on any 24-bit input (ASan+UBSan).
+        # NB: neither g++'s nor clang's ASan puts red zones around the inline constexpr LUT, so a read at LUT.end() would NOT be
+        # reported here; that the search stays inside the table is c04_lookup_never_end + the "lookup-misses-row" sweep above.
         san = ctx.build_cpp("c04_harness_san", "c04.cpp", sanitize=True)
         if san:
             rc, out = ctx.run_exe(san, ["sweep"], timeout=1800)
@@ -255,7 +261,7 @@ def run(ctx):
             ctx.evaluations += 1 << 24
             if rc != 0:
                 m = re.search(r"(ERROR: AddressSanitizer[^\n]*|runtime error[^\n]*)", out)
-                ctx.violation("golay-lookup-out-of-bounds", "Golay24::decode reads outside LUT (or other UB) for a 24-bit input",
+                ctx.violation("golay-decode-undefined-behaviour", "sanitizer report inside Golay24::decode for a 24-bit input",
                               {"sanitizer": m.group(1) if m else out[-400:], "command": "c04_harness_san sweep (decode of every r < 2^24)"})
 
     # ------------------------------------------------------------------ thorough: all 2^24 words, C++ vs model, block digests
